@@ -12,7 +12,7 @@ D4 history independence: no log entry at or below the highwater mark - every ins
 D5 SRTLA ACK attribution: arrival link first, then the first other holder, then stop; global +1 for every link;
 D6 registration at flush time with the routed sequence number.
 """
-from ..ctx import is_iter_next, CONN, is_call, is_field, sname
+from ..ctx import full_slice_element, is_iter_next, CONN, is_call, is_field, sname
 from ..expr import show, walk
 from ..pathcond import PathA, calls_to, field_stores
 from . import C05
@@ -239,9 +239,8 @@ def d3_cumulative_ack_shape(ctx):
             nst = len(pce.blocks[bb]["stmts"])
             link = ppa.fa.val_operand(t["args"][0], (bb, nst))
             ack = ppa.fa.val_operand(t["args"][1], (bb, nst))
-            its = [x for x in walk(link) if is_call(x, name_contains="<impl [T]>::iter_mut")]
             up = [i for i, n in pce.upvar_names.items() if n == "connections"]
-            full = bool(its) and bool(up) and its[0][2] == (("upvar", up[0]),)
+            full = bool(up) and full_slice_element(link, ("upvar", up[0])) is not None
             from_acks = any(is_field(x, "ack_numbers") for x in walk(ack))
             # unconditional inside the two loops: relative to the outer loop's entry only iterator atoms remain
             cfgp = ctx.cfg(pce)
@@ -354,8 +353,7 @@ def d5_srtla_ack_attribution(ctx):
     # global +1 on every link, once per SRTLA ACK number
     for (bb, t) in calls_to(pce, stable=CONN + "::handle_srtla_ack_global"):
         link = pa.fa.val_operand(t["args"][0], (bb, len(pce.blocks[bb]["stmts"])))
-        its = [x for x in walk(link) if is_call(x, name_contains="<impl [T]>::iter_mut")]
-        full = bool(its) and its[0][2] == (("upvar", conns[0]),)
+        full = full_slice_element(link, ("upvar", conns[0])) is not None
         loops = [h for h in cfg.loop_heads() if bb in cfg.loop_body(h)]
         same_outer = any(first[0] in cfg.loop_body(h) for h in loops)
         inner = min(loops, key=lambda h: len(cfg.loop_body(h))) if loops else None
